@@ -51,6 +51,7 @@ INVARIANT CodeInvRetyped
 INVARIANT CodeInvOtherSubOffsets
 INVARIANT CodeInvNoPanic
 INVARIANT DemandNoNeedlessRefusal
+INVARIANT ExtTransparent
 INVARIANT Emit
 """
 
@@ -59,11 +60,12 @@ def _set(xs):
     return "{" + ", ".join(str(x).upper() if isinstance(x, bool) else str(x) for x in xs) + "}"
 
 
-def _layout_cfg(sizes, ml, ms, mfs=(False,), ss=(20,), fs=(14,), emit=True, inv=INV, fix=False):
+def _layout_cfg(sizes, ml, ms, mfs=(False,), ss=(20,), fs=(14,), emit=True, inv=INV, fix=False, types=(0,), ext=7):
     return ("CONSTANTS\n  Sizes = %s\n  MaxLookups = %d\n  MaxSubs = %d\n  MfsChoices = %s\n  ScriptSizes = %s\n"
-            "  FeatSizes = %s\n  EmitCases = %s\n  Fix28 = %s\nINIT Init\nNEXT Next\n%sCHECK_DEADLOCK FALSE\n" % (
+            "  FeatSizes = %s\n  EmitCases = %s\n  Fix28 = %s\n  Types = %s\n  ExtType = %d\n  Recognised = %s\n"
+            "INIT Init\nNEXT Next\n%sCHECK_DEADLOCK FALSE\n" % (
                 _set(sizes), ml, ms, _set(mfs), _set(ss), _set(fs), "TRUE" if emit else "FALSE",
-                "TRUE" if fix else "FALSE", inv))
+                "TRUE" if fix else "FALSE", _set(types), ext, _set(types), inv))
 
 
 def _cfg_replace(name, **kv):
@@ -290,6 +292,10 @@ def run(ctx):
             "four": _layout_cfg([10, 100, 30000, 40000, 65000, 66000], 4, 1, mfs=(False, True)),
         }
     layouts["hdr"] = _layout_cfg([100], 1, 1, ss=(20, 30000, 66000), fs=(14, 40000, 66000))
+    # extension wrapping is transparent for every lookup type: three lookups of 40000 bytes with given types
+    TYPES = {"types_gsub": ((1, 2, 3, 4, 5, 6, 8), 7), "types_gpos": ((1, 2, 3, 4, 6, 7, 8), 9)}
+    for k, (tys, ext) in TYPES.items():
+        layouts[k] = _layout_cfg([40000], 3, 1, types=tys, ext=ext)
     for k, text in layouts.items():
         if quick and k == "deep6":
             jobs.add(k, "LookupLayout", "LL_%s.cfg" % k, text, "LookupLayout simulation (1-6 lookups)", timeout=600,
@@ -322,6 +328,7 @@ def run(ctx):
     R = jobs.run()
 
     plans = []
+    typed = []
     for k in layouts:
         r = R[k]
         if not r.ok:
@@ -329,6 +336,19 @@ def run(ctx):
                              % (k, r.violated, r.error_text[:1500]))
         if not r.cases:
             raise vlib.Infra("LookupLayout.tla (%s) emitted no plan" % k)
+        if k in TYPES:
+            tys, ext = TYPES[k]
+            for p in r.cases:
+                ts = [l["type"] for l in p["ll"]]
+                nxt = lambda a: tys[(tys.index(a) + 1) % len(tys)]
+                # quick: every type alone and mixed with one other type (before and after); thorough: all triples
+                if len(ts) == 3 and (not quick or len(set(ts)) == 1 or (ts[0] == ts[1] and ts[2] == nxt(ts[0]))
+                                     or (ts[1] == ts[2] and ts[0] == nxt(ts[1]))):
+                    q = dict(p)
+                    q.update(what="plan", ext=ext)
+                    q.pop("big", None)
+                    typed.append(q)
+            continue
         plans += r.cases
     if not R["fixdesign"].ok:
         raise vlib.Infra("the model of the proposed fix violates %s:\n%s" % (R["fixdesign"].violated, R["fixdesign"].error_text[:1500]))
@@ -351,9 +371,11 @@ def run(ctx):
     for k in ("shapes", "cov", "cdef"):
         if not R[k].ok or not R[k].cases:
             raise vlib.Infra("generator %s failed: %s %s" % (k, R[k].violated, R[k].error_text[:800]))
-    gen = {"shape": [], "boundary": [], "huge": [], "off": [], "field": [], "gdef": [], "lists": [], "geom": []}
+    gen = {"shape": [], "boundary": [], "leaf": [], "huge": [], "off": [], "field": [], "gdef": [], "lists": [], "geom": []}
     for c in R["shapes"].cases:
-        if c["what"] == "shape" and c["k"].startswith("huge"):
+        if c["what"] == "shape" and c["k"] == "leaf":
+            gen["leaf"].append(c)           # value sweeps on scalar leaves: realised in every run
+        elif c["what"] == "shape" and c["k"].startswith("huge"):
             gen["huge"].append(c)
         elif c["what"] == "shape" and c["k"] == "off":
             gen["off"].append(c)
@@ -378,8 +400,10 @@ def run(ctx):
                            "tag of the built-in tables, lists with 255/256/257(/300) language systems, features, feature "
                            "lookups, optional features, coverage/classdef with 255/256/257 glyphs or ranges; degenerate "
                            "populations (explicit class-0 entries, all-zero tables, nil vs empty, false set members, glyph 0 / "
-                           "65535) of classdef.Table, coverage.Set, GDEF and class-based subtables"
-                           % (len(gen["boundary"]), len(gen["geom"])),
+                           "65535) of classdef.Table, coverage.Set, GDEF and class-based subtables; %d value sweeps "
+                           "(each scalar leaf at 0, 1, -1, min, max with the other leaves non-zero / zero); %d lookup lists "
+                           "forced into extension lookups for every GSUB type 1-6, 8 and GPOS type 1-4, 6-8, alone and mixed"
+                           % (len(gen["boundary"]), len(gen["geom"]), len(gen["leaf"]), len(typed)),
         "shapes": "%d subtable shapes, %d GDEF, %d script/feature list shapes, %d coverage and %d classdef run structures"
                   % (len(gen["shape"]) + len(gen["boundary"]) + len(gen["huge"]) + len(gen["off"]), len(gen["gdef"]), len(gen["lists"]),
                      len(R["cov"].cases), len(R["cdef"].cases)),
@@ -407,6 +431,7 @@ def run(ctx):
         q.update(what="plan", pref="ctx", tab=("GSUB", "GPOS")[i % 2])
         q.pop("big", None)
         lines.append(q)
+    lines += sorted(typed, key=lambda c: json.dumps(c, sort_keys=True))
     ctx.sample({"plan_from_TLC": chosen[0]})
     gap = [p for p in chosen if p["model"] != "ok"]
     if gap:
@@ -423,7 +448,7 @@ def run(ctx):
     # about 90 cases, a few seconds)
     offs = sorted(gen["off"], key=lambda c: (c["t"], c["big"]))
     byjson = lambda c: json.dumps(c, sort_keys=True)
-    slines = (shapes + sorted(gen["boundary"], key=byjson) + gen["huge"] + offs + gen["gdef"]
+    slines = (shapes + sorted(gen["boundary"], key=byjson) + sorted(gen["leaf"], key=byjson) + gen["huge"] + offs + gen["gdef"]
               + sorted(gen["lists"], key=byjson) + sorted(gen["geom"], key=byjson))
     ctx.sample({"shape_from_TLC": shapes[0]})
     traces += _run_harness_parallel(ctx, binp, slines, d, "shapes", ctx.pick(2, 8))
